@@ -1083,6 +1083,11 @@ package hashgraph
 //@   safety on
 //@   requires h != nil && peerSet != nil
 //@   modifies G_pset(h.Store), G_psetOK(h.Store), G_psetFloor(h.Store), G_rep(h.Store), G_fault(h.Store)
+// the genesis validator set is recorded for round 0 (the first entry of the history every later lookup falls back on), and a
+// refusal of the store is reported
+//@   call SetPeerSet assert[genesis-round] __arg(0) == 0 && __arg(1) == peerSet
+//@   ensures[recorded] ret0 == nil ==> G_psetOK(h.Store) && G_pset(h.Store)[0] == peerSet
+//@   ensures[refusal-reported] __lastret("SetPeerSet", 0) != nil ==> ret0 != nil
 
 // ConsensusReady: what every stage of the pipeline needs from the hashgraph object (kept by every stage).
 //@ ghost func (h *Hashgraph) ConsensusReady() bool { return h.MemoOK() && h.PendingRounds != nil && h.PendingRounds.wf() && h.PendingSignatures != nil && h.PendingSignatures.items != nil }
